@@ -2,7 +2,10 @@
 from .. import common, instrument as ins, w2
 
 
-def classify_exc(e):
+STAT_ALGOS = {"WeighMeanVar", "WeighERC", "TargetVol", "WeighInvVol"}
+
+
+def classify_exc(e, spec=None):
     """(verdict, why) for an exception that escaped a generated well-formed backtest, for properties other than C10."""
     s = str(e)
     if isinstance(e, ZeroDivisionError):
@@ -11,6 +14,9 @@ def classify_exc(e):
         return common.OOD, "sizing guard"
     if "No solution found" in s or "Optimization" in s or "optimization" in s or "singular" in s.lower() or "SVD did not converge" in s:
         return common.OOD, "solver"
+    if "cannot convert float NaN to integer" in s and spec is not None and STAT_ALGOS & set(w2.algo_names(spec)):
+        # a statistical weigher returned NaN weights (degenerate window): not "valid weights" in the sense of C10
+        return common.OOD, "nan weights from a statistical weigher"
     return common.INC, "bt raised %s: %s" % (type(e).__name__, s[:100])
 
 
@@ -28,7 +34,7 @@ def run_w2(cs, oracles, gen_opts=None, setup=None, spec=None, nontrivial=None, a
     sample = w2.sample_of(spec)
     cnt, res = {}, {}
     if run.exc is not None:
-        v, why = classify_exc(run.exc)
+        v, why = classify_exc(run.exc, spec)
         cnt["stopped_" + why.split(":")[0][:20].replace(" ", "_")] = 1
         return common.result(v, sig=sig, cnt=cnt, why=why, sample=sample)
     if ins.gross(run.root) > common.GROSS_MAX or ins.max_qty(run.root) > common.QTY_MAX:
